@@ -229,6 +229,13 @@ func CrashSignature(stderr string, exitErr string) (rule, sig, msg string) {
 			if m := reGoluaFrame.FindStringSubmatch(l); m != nil && !strings.Contains(l, ".go:") {
 				f := m[1] + "." + m[2]
 				f = strings.TrimSuffix(f, "(...)")
+				// drop the argument list of panic traces: "pkg.(*T).method(0xc000..., ...)"
+				for k := 0; k < len(f); k++ {
+					if f[k] == '(' && !(k+1 < len(f) && f[k+1] == '*') {
+						f = f[:k]
+						break
+					}
+				}
 				if len(fs) == 0 || fs[len(fs)-1] != f {
 					fs = append(fs, f)
 				}
